@@ -75,12 +75,21 @@ theorem lawful : params.Lawful where
   iso_shape := iso_shape
   iso_xml := iso_xml
   trunc_idem := fun _ => rfl
-  repair_idem := by
-    intro s r h
-    have h' : some s = some r := h
-    have : s = r := by simpa using h'
-    subst this
-    rfl
+  repair_nil := rfl
+
+/-- the same instance with a `repair` that is not idempotent: every non-empty fragment grows -/
+def growing : Params := { params with repair := fun s => if s = [] then some [] else some ('x' :: s) }
+
+theorem growing_lawful : growing.Lawful where
+  float_rt := fParse_fRepr
+  float_ne_star := ne_star
+  float_xml := f_xml
+  zero_isZero := rfl
+  ofInt_zero := ofInt_zero
+  iso_rt := iso_rt
+  iso_shape := iso_shape
+  iso_xml := iso_xml
+  trunc_idem := fun _ => rfl
   repair_nil := rfl
 
 end Capella.Pods.Toy
